@@ -17,7 +17,7 @@ from .expand import (_pl, _new_local, _agg, _closure_of, _bind_captures, _defs, 
 from .inline import _splice, _live, _fold_switches, _resolve_refs
 from .mir import strip_generics
 
-ADAPTORS = ("map", "filter", "copied", "cloned")
+ADAPTORS = ("map", "filter", "filter_map", "copied", "cloned")
 # `any` / `all` could be lowered the same way (the code below handles them) but are left as calls: a rule that meets one reads
 # the predicate closure directly, which says more than an early-exit loop does
 CONSUMERS = ("fold", "for_each")
@@ -155,6 +155,16 @@ def _stages(bld, cur, x, chain, fns, skip_to):
             keep = bld.block()
             bld.switch_bool(nxt, {"move": r}, skip_to, keep)
             cur = keep
+        elif kind == "filter_map":
+            r, nxt = bld.call(cur, f[0], f[1], [{"move": x}])
+            d = _pl(_new_local(bld.body, "isize"), ty="isize")
+            bld.stmt(nxt, d, {"k": "discr", "p": dict(r, ty=OPTION + "<?>")})
+            keep = bld.block()
+            un = bld.block()
+            bld.blocks[nxt]["term"] = {"k": "switch", "discr": {"move": d}, "discr_ty": "isize", "arms": [[0, skip_to], [1, keep]], "otherwise": un, "line": bld.line, "exp": False}
+            y = _pl(_new_local(bld.body))
+            bld.stmt(keep, y, {"k": "use", "a": {"move": dict(r, p=list(r["p"]) + [{"d": "Some", "v": 1}, {"f": 0, "n": "0", "ty": "?"}])}})
+            cur, x = keep, y
         elif kind in ("copied", "cloned"):
             y = _pl(_new_local(bld.body))
             bld.stmt(cur, y, {"k": "use", "a": {"copy": dict(x, p=list(x["p"]) + ["*"])}})
@@ -234,11 +244,17 @@ def lower_body(body, bodies, known, log):
                 if rp is None or rp["p"]:
                     continue
                 ds = defs.get(rp["l"], [])
+                for _hop in range(3):
+                    # `&mut *r` where r = &mut iter (a reborrow)
+                    if len(ds) == 1 and ds[0].get("k") == "ref" and ds[0]["p"]["p"] == ["*"]:
+                        ds = defs.get(ds[0]["p"]["l"], [])
+                    else:
+                        break
                 if len(ds) != 1 or ds[0].get("k") != "ref" or ds[0]["p"]["p"]:
                     continue
                 it = ds[0]["p"]["l"]
                 ity = body["locals"][it]["ty"]
-                if not (ity.startswith("std::iter::Map<") or ity.startswith("std::iter::Filter<") or ity.startswith("std::iter::Copied<") or ity.startswith("std::iter::Cloned<")):
+                if not (ity.startswith("std::iter::Map<") or ity.startswith("std::iter::Filter<") or ity.startswith("std::iter::FilterMap<") or ity.startswith("std::iter::Copied<") or ity.startswith("std::iter::Cloned<")):
                     continue
                 # _it = move _a; _a = into_iter(move _m); _m = adaptor(...)
                 op = {"move": _pl(it)}
